@@ -57,7 +57,10 @@ def run(ctx):
     # (foreignact: a revision labelled for the package, Active, controlled by another owner - e.g. left behind by an
     # earlier incarnation of the package: nothing may be activated next to it)
     # (quick_mid: the environment - user edits, registry changes, a revision deleted by hand - also acts in the middle of a reconcile)
-    cfgs = [("MCPkgManager_quick.cfg", 2200), ("MCPkgManager_foreignact.cfg", 400), ("MCPkgManager_foreign2.cfg", 300), ("MCPkgManager_quick_mid.cfg", 600)] if quick else \
+    cfgs = [("MCPkgManager_quick.cfg", 2200), ("MCPkgManager_foreignact.cfg", 400), ("MCPkgManager_foreign2.cfg", 300), ("MCPkgManager_quick_mid.cfg", 600),
+            # revisions keep a finalizer: a deleted one stays listed (terminating) while further reconciles run (added after the seeded
+            # change C14-m8 - a terminating revision is no candidate any more but still counts - was only caught by the thorough tier)
+            ("MCPkgManager_quick_fin.cfg", 900)] if quick else \
            [("MCPkgManager_thorough.cfg", 30000), ("MCPkgManager_mid.cfg", 26000), ("MCPkgManager_foreignact.cfg", 4000), ("MCPkgManager_foreign2.cfg", 4000)]
     scs, states, trans, emitted = [], 0, 0, 0
     consts = {}
